@@ -947,6 +947,78 @@ def impl_trace(host, mode, size, ops):
     return world(host, mode).run_seq(size, ops)
 
 
+def ideal_sticky(host, size, ops, answers, asked):
+    """The stickiness clause with the bound counted by the SPECIFICATION, not read off the implementation's cache:
+    once Bert-E has seen (commit, key) SUCCESSFUL - an event said so, or a poll that answered from the host got a
+    report in which the key is green - every poll of that pair must answer SUCCESSFUL for as long as fewer than `size`
+    OTHER commits have been mentioned by any operation since (no bounded cache of that size can have evicted it;
+    the hypothesis of theorem C17_sticky).  Returns the index of the first violating step, or None."""
+    held = {}            # (commit, key) -> set of other commits mentioned since
+    for i, (op, a) in enumerate(zip(ops, answers)):
+        t, c = op[0], op[1]
+        for p, others in held.items():
+            if p[0] != c:
+                others.add(c)
+        if t in ('PG', 'PB'):
+            k = op[2]
+            p = (c, k)
+            if p in held and len(held[p]) < size and a != 'SUCCESSFUL':
+                return i
+        green = []
+        if t == 'ES' and op[4] == 'SUCCESSFUL':
+            green = [(c, op[2])]
+        elif t == 'EU' and op[3] == 'SUCCESSFUL':
+            green = [(c, 'github_actions')]
+        elif t == 'EB' and op[3] == 'SUCCESSFUL':
+            green = [(c, op[2])]
+        elif t == 'PB' and op[3] == 'SUCCESSFUL' and asked[i]:
+            green = [(c, op[2])]
+        elif t == 'PG' and op[3] is not None and asked[i]:
+            # the poll asked the host (observed: a request went out): the whole report of the commit was shown to it
+            ctxl, _runs, astate = op[3]
+            rep = {x: st for x, _raw, st in ctxl}
+            rep['github_actions'] = astate
+            green = [(c, k2) for k2, st in rep.items() if st == 'SUCCESSFUL']
+        for p in green:
+            held[p] = set()
+    return None
+
+
+def ideal_sticky_stream(ctx):
+    """every sequence of <= 3 operations over the GitHub / Bitbucket alphabets (cache size 2), monitored by
+    ideal_sticky: the case the extracted monitor cannot see - a green verdict that was answered but never stored"""
+    import itertools
+    n_bad = 0
+    for host, nops in (('gh', 40), ('bb', 16)):
+        alpha = [ALPHA_OPS[host](i) for i in range(nops)]
+        sub = [o for o in alpha if o[1] == 'c0'] + [o for o in alpha if o[1] != 'c0'][:3]
+        depth = 3
+        w = world(host, 'fast')
+        for seq in itertools.product(sub, repeat=depth):
+            w.reset(2)
+            answers, asked = [], []
+            try:
+                for op in seq:
+                    before = w.http_calls
+                    answers.append(w.apply(op))
+                    asked.append(w.http_calls > before)
+            except KeyError:
+                continue
+            ctx.evaluations += 1
+            bad = ideal_sticky(host, 2, seq, answers, asked)
+            if bad is not None:
+                n_bad += 1
+                if n_bad <= 5:
+                    ctx.violation({'kind': 'seq', 'host': host, 'mode': 'fast', 'size': 2,
+                                   'ops': [list(o) for o in seq], 'readable': [state_word(o) for o in seq]},
+                                  'SUCCESSFUL', answers[bad],
+                                  'a commit seen SUCCESSFUL under a build key is answered otherwise at step %d although fewer '
+                                  'than the cache bound of other commits were used since' % bad,
+                                  key=core.canon({'what': 'ideal sticky', 'host': host,
+                                                  'ops': [o[0] for o in seq]}))
+    ctx.count('ideal_sticky_violations', n_bad)
+
+
 def check_seq(ctx, pool, cases, label, in_quantifier=True):
     """explicit operation sequences: impl trace vs model trace; specification monitor on the impl trace.
     cases: (host, mode, size or None, ops)"""
@@ -1342,6 +1414,8 @@ def run(ctx, replay_input=None):
         check_seq(ctx, None, mal, 'malformed', in_quantifier=False)
         # 6. two threads: while the host's answer to one operation is in flight, another operation runs to its end
         interleaved(ctx)
+        # 7. stickiness with the bound counted by the specification (not read off the implementation's cache)
+        ideal_sticky_stream(ctx)
     finally:
         pool.terminate()
         cur = _WORLDS.get('current')
